@@ -549,6 +549,36 @@ func runC09(r *Run) {
 		r.check(!keeps, "forEachMediaRange:escape-flag", r.pos(esc), "every iteration gives the quoted-pair flag a fresh value (set by a backslash, cleared otherwise)",
 			"the quoted-pair flag is carried over unchanged by characters other than a backslash: after `\\\"` inside a quoted parameter value the closing quote is not counted, the following comma is swallowed and the remaining ranges of the header are lost")
 	})
+
+	r.rule("R8", "a media range accepts an offer only with its parameters: acceptsOfferType answers true only as the result of paramsMatch(the range's parameters, …) (E1)", func() {
+		f := r.Fn("", "acceptsOfferType")
+		var specParams ssa.Value
+		for _, p := range f.Params {
+			if strings.HasSuffix(p.Type().String(), "headerParams") {
+				specParams = p
+			}
+		}
+		r.need(specParams != nil, "acceptsOfferType takes the range's headerParams")
+		isPM := func(v ssa.Value) bool {
+			c, ok := v.(*ssa.Call)
+			return ok && strings.HasSuffix(calleeName(&c.Call), "fiber/v3.paramsMatch") && len(c.Call.Args) == 2 && stripValue(c.Call.Args[0]) == specParams
+		}
+		cut := map[edge]bool{}
+		n := 0
+		for _, b := range f.Blocks {
+			for _, in := range b.Instrs {
+				if v, ok := in.(ssa.Value); ok && isPM(v) {
+					n++
+					for _, e := range trueEdgesOf(f, v) {
+						cut[e] = true
+					}
+				}
+			}
+		}
+		r.atLeast("paramsMatch calls on the range's parameters", n, 1)
+		r.check(trueOnlyBehind(f, cut, isPM), "acceptsOfferType:true-only-with-paramsMatch", r.fpos(f), fmt.Sprintf("every true answer is (or lies behind) one of %d paramsMatch(specParams, offerParams) results", n),
+			"acceptsOfferType can answer true without comparing the range's parameters with the offer's: a range such as */*;version=2 or text/*;charset=x selects an offer that lacks the parameter")
+	})
 }
 
 // pooledParamMapRule is shared by C09-R5 and C05-R5: a map taken from headerParamPool must be empty
